@@ -80,7 +80,15 @@ def buffer_part(chk, thorough, rng):
     chosen = []
     for i, t in enumerate(trs):
         interesting = t["from"]["pos"] in boundary or t["to"]["pos"] in boundary or t["res"] != "ok"
-        if thorough:
+        # always: every operation that runs out of room by a hair (a header or placeholder that does not fit; a push that misses by
+        # at most four octets) and every one that just fits (lands within four octets of the front) - the capacity check of each
+        # write is what the property is about
+        tight = ((t["res"] != "ok" and (t["op"] != "push" or t["arg"] - t["from"]["pos"] <= 4))
+                 or (t["res"] == "ok" and t["to"]["pos"] <= 4 and t["op"] in ("push_tag_len", "auth_placeholder"))
+                 or (t["res"] == "ok" and t["to"]["pos"] <= 4 and t["op"] in ("push", "skip") and t["from"]["pos"] != t["to"]["pos"] and (i + SEED) % (40 if not thorough else 4) == 0))
+        if tight:
+            chosen.append(t)
+        elif thorough:
             if (interesting and (i + SEED) % 2 == 0) or (i + SEED) % 60 == 0:
                 chosen.append(t)
         elif (interesting and (i + SEED) % 24 == 0) or (i + SEED) % 900 == 0:
